@@ -21,12 +21,21 @@ def build_both(run):
         return {"ts": a.result(), "nts": b.result()}
 
 
-def run_life(run, lib, script, tag, fault=None, trace=False, timeout=120, extra_env=None):
-    env = {"LD_PRELOAD": " ".join([ALLOC, lib, FAULT, RECORDER]), "VERIF_ALLOC_OBJ": os.path.basename(lib), "VERIF_FAULT_OBJ": os.path.basename(lib)}
+def compiled_ini_path(run):
+    m = re.search(r'^#define\s+SNOOPY_CONF_CONFIGFILE_PATH\s+"([^"]*)"', run.src("config.h"), re.M)
+    return m.group(1) if m else "/usr/local/etc/snoopy.ini"
+
+
+def run_life(run, lib, script, tag, fault=None, trace=False, timeout=120, extra_env=None, prod=False):
+    """prod: the library reads its COMPILED-IN configuration path (served from the run's snoopy.ini by libfaultlite's fopen redirection) and the
+    test hook for an alternative path is shadowed: the production branch of the configuration ctor runs"""
+    env = {"LD_PRELOAD": " ".join([ALLOC, FAULT, lib, RECORDER]), "VERIF_ALLOC_OBJ": os.path.basename(lib), "VERIF_FAULT_OBJ": os.path.basename(lib)}
     if fault:
         env["VERIF_FAULT"] = fault
     if trace:
         env["VERIF_FAULT_TRACE"] = "1"
+    if prod:
+        env["VERIF_PROD_INI"] = "%s=%s" % (compiled_ini_path(run), os.path.join(run.scratch, "sys-" + tag, "snoopy.ini"))
     if extra_env:
         env.update(extra_env)
     return run_script(run, lib, script, tag, timeout=timeout, env=env)
